@@ -63,8 +63,8 @@ MUTANTS = [
      'edits': [('elfi/store.py', '        """Flush any changes in memory to array."""\n        self._write_header_data()\n        self.fs.flush()', '        """Flush any changes in memory to array."""\n        self.fs.flush()')]},
     {'id': 'c06-getstate-no-flush', 'props': ['C06'], 'what': '__getstate__ does not flush before pickling',
      'edits': [('elfi/store.py', "        if not self.fs.closed:\n            self.flush()\n        return {'filename': self.filename}", "        return {'filename': self.filename}")]},
-    {'id': 'c06-header-no-padding', 'props': ['C06'], 'what': 'header rewritten without padding to the fixed length',
-     'edits': [('elfi/store.py', "        elif fill_len > 0:\n            h_bytes.write(b'\\x20' * fill_len)", "        elif fill_len > 0:\n            pass")]},
+    {'id': 'c06-append-pos-rows', 'props': ['C06'], 'what': 'append offset ignores the row size (wrong for multi-dimensional rows)',
+     'edits': [('elfi/store.py', "        # Append new data\n        pos = self.header_length + self.size * self.itemsize", "        # Append new data\n        pos = self.header_length + self.shape[0] * self.itemsize")]},
     {'id': 'c06-delete-one-too-many', 'props': ['C06'], 'what': 'NpyStore.__delitem__ truncates one batch too many',
      'edits': [('elfi/store.py', "        self.array.truncate(sl.start)", "        self.array.truncate(max(0, sl.start - self.batch_size))")]},
     {'id': 'c06-append-stale-memmap', 'props': ['C06'], 'what': 'append does not invalidate the memmap',
